@@ -19,7 +19,8 @@ def describe(tier):
     return {
         "rule": f"every expression over format-constraint keys with U/O/X and brackets with {BOUNDS[tier]} leaves and EVERY key labelling "
                 "(repeated keys included) x ALL 2^f truth assignments; each unfulfilled single constraint carries its own message. Oracle: "
-                "format_constraints_fulfilled == Boolean value (Python and / or / !=) of the implementation's parse tree; an error message is "
+                "format_constraints_fulfilled == Boolean value (Python and / or / !=) of the expression under the DOCUMENTED precedence "
+                "(reference parser R2; expressions with 3-4 leaves also in mixed letter/symbol notation); an error message is "
                 "present iff the result is unfulfilled; through evaluate_format_constraint_tree (messages supplied) and through "
                 "format_constraint_evaluation with a harness FcEvaluator whose evaluate methods return no message (default-message path), "
                 "sync and async evaluation methods, and (3 keys, all 8 assignments, 3 expressions) under ALL completion orders of "
@@ -60,19 +61,26 @@ def _bool(tt, val):
 
 
 def check_expr(expr, only=None):
+    from mc.ref import condparse as R2
+
     I = X.init()
     out = []
     pr = X.parse(expr)
     if pr[0] == "exc":
         return [{"kind": "parse-failed", "case": {"expr": expr}, "expected": "tree", "observed": pr[1], "msg": expr}], 0
     _, T, tt = pr
+    ref = R2.parse(expr)  # the DOCUMENTED precedence (reference parser), independent of the implementation's tree
     keys = R3.keys_of(tt)
     n = 0
     for vals in itertools.product((True, False), repeat=len(keys)):
         val = dict(zip(keys, vals))
         if only is not None and val != only:
             continue
-        exp = _bool(tt, val)
+        exp = R2.to_bool(ref, val)
+        if exp != _bool(tt, val):
+            out.append({"kind": "boolean-value", "case": {"expr": expr, "fc": val}, "expected": exp, "observed": _bool(tt, val),
+                        "msg": f"{expr}: the implementation's parse tree does not have the documented precedence"})
+            continue
         case = {"expr": expr, "fc": val}
         # (a) the transformer with explicit messages
         nodes = {k: I.EvaluatedFormatConstraint(format_constraint_fulfilled=v, error_message=None if v else f"msg {k}")
@@ -184,6 +192,17 @@ def run_item(item):
             continue
         expr = X.render(ast, item["seed"])
         vs, n = check_expr(expr)
+        if item["n"] in (3, 4):
+            # the same expression with MIXED operator notations (letter and symbol operators meet)
+            for k in (1, 2):
+                sp = dict(X.spelling(item["seed"]))
+                op = ("and", "or", "xor")[(i + k) % 3]
+                sp[op] = {"and": "∧", "or": "∨", "xor": "⊻"}[op] if sp[op] in "UuOoXx" else {"and": "U", "or": "O", "xor": "X"}[op]
+                mixed = A.render(ast, spell=sp, sp=X.spacing(item["seed"]))
+                if mixed != expr:
+                    vs2, n2 = check_expr(mixed)
+                    vs += vs2
+                    n += n2
         r.evaluations += n
         r.states += n // 3
         r.transitions += n
